@@ -8,6 +8,9 @@ package main
 // for the same inputs (file configuration only, values as written).
 
 import (
+	"bytes"
+	"encoding/json"
+	"os/exec"
 	"flag"
 	"fmt"
 	"math"
@@ -139,6 +142,12 @@ func fRun(t *testing.T, r *sim.Run, tier string) {
 	if T.Intn(5, "dup") == 0 {
 		args = append(args, args[0])
 	}
+	failing := T.Intn(8, "failing-run") == 0
+	if failing {
+		// a later input cannot be read: benchfilter dies after it has written the records of the earlier inputs
+		args = append(args, filepath.Join(fTmp, "missing.txt"))
+		r.Fault("input-file-missing")
+	}
 	// expected stream: what benchfmt.Files yields for these inputs
 	var want []*fRec
 	files := benchfmt.Files{Paths: args, AllowStdin: true, AllowLabels: true}
@@ -147,7 +156,7 @@ func fRun(t *testing.T, r *sim.Run, tier string) {
 			want = append(want, m)
 		}
 	}
-	if err := files.Err(); err != nil {
+	if err := files.Err(); err != nil && !failing {
 		r.Fail("harness", "files", "%v", err)
 	}
 	// run the real main()
@@ -155,6 +164,40 @@ func fRun(t *testing.T, r *sim.Run, tier string) {
 	out, err := os.Create(outPath)
 	if err != nil {
 		panic(err)
+	}
+	if failing {
+		// log.Fatal ends the process: run the tool in a child (this test binary re-executed)
+		out.Close()
+		cmd := exec.Command(os.Args[0], "-test.run", "^TestVerifWorker$")
+		ab, _ := json.Marshal(append([]string{"benchfilter", "*"}, args...))
+		cmd.Env = append(os.Environ(), "VERIF_BENCHFILTER_ARGS="+string(ab))
+		var stdout bytes.Buffer
+		cmd.Stdout = &stdout
+		err := cmd.Run()
+		if err == nil {
+			r.Fail("roundtrip", "benchfilter/missing-input-ignored", "benchfilter exited 0 although %s does not exist", args[len(args)-1])
+		}
+		data := stdout.Bytes()
+		r.Logf("failing run output %q", strings.ReplaceAll(string(data), fTmp, "$TMP"))
+		var got []*fRec
+		rd := benchfmt.NewReader(bytes.NewReader(data), "out")
+		for rd.Scan() {
+			if _, bad := rd.Result().(*benchfmt.SyntaxError); !bad {
+				got = append(got, fModel(rd.Result()))
+			}
+		}
+		// every record written before the failure must have reached the output, exactly
+		for i := range want {
+			if i >= len(got) {
+				r.Fail("roundtrip", "benchfilter/output-lost-on-failure", "benchfilter failed on a later input; of the %d records it had written for the earlier inputs only %d are in its output (next: %s)", len(want), len(got), want[i])
+			}
+			if want[i].String() != got[i].String() {
+				r.Fail("roundtrip", "benchfilter/record-differs", "record %d differs in the output of a failing run\nwant: %s\ngot:  %s", i, want[i], got[i])
+			}
+		}
+		r.StateHash = sim.HashStr("failing", fmt.Sprint(len(want)))
+		r.Nontrivial = len(want) >= 2
+		return
 	}
 	oldArgs, oldStdout, oldStderr := os.Args, os.Stdout, os.Stderr
 	devnull, _ := os.OpenFile(os.DevNull, os.O_WRONLY, 0)
@@ -209,5 +252,13 @@ var c01FilterEngine = &sim.Engine{
 }
 
 func TestVerifWorker(t *testing.T) {
+	if a := os.Getenv("VERIF_BENCHFILTER_ARGS"); a != "" {
+		var args []string
+		json.Unmarshal([]byte(a), &args)
+		os.Args = args
+		flag.CommandLine = flag.NewFlagSet("benchfilter", flag.ExitOnError)
+		main()
+		os.Exit(0)
+	}
 	sim.WorkerMain(t, c01FilterEngine)
 }
